@@ -94,7 +94,7 @@ def read_lines(path):
         return [l.rstrip('\n') for l in f]
 
 
-def run_model(lines, tag='m', timeout=600):
+def _run_model_1(lines, tag='m', timeout=600):
     os.makedirs(WORK, exist_ok=True)
     cf = os.path.join(WORK, f'{tag}.{os.getpid()}.cases')
     of = os.path.join(WORK, f'{tag}.{os.getpid()}.model.out')
@@ -116,7 +116,7 @@ def run_model(lines, tag='m', timeout=600):
     return res, rc
 
 
-def run_impl(lines, tag='i', timeout=600, profile='debug'):
+def _run_impl_1(lines, tag='i', timeout=600, profile='debug'):
     """Runs the harness; a dying process (stack overflow abort) is handled by
     resuming after the case that killed it, which is recorded as ABORT."""
     os.makedirs(WORK, exist_ok=True)
@@ -153,6 +153,37 @@ def run_impl(lines, tag='i', timeout=600, profile='debug'):
         cid = culprit.split(' ', 1)[0]
         res[cid] = 'TIMEOUT' if rc == -999 else 'ABORT'
         pending = pending[done + 1:]
+    return res
+
+
+def _shards(lines, per=400, maxn=12):
+    n = max(1, min(maxn, len(lines) // per))
+    return [lines[i::n] for i in range(n)]
+
+
+def run_model(lines, tag='m', timeout=600):
+    """runs the extracted model, sharded over several processes"""
+    from concurrent.futures import ThreadPoolExecutor
+    sh = _shards(lines)
+    if len(sh) == 1:
+        return _run_model_1(lines, tag, timeout)
+    res, rcs = {}, []
+    with ThreadPoolExecutor(len(sh)) as ex:
+        for r, rc in ex.map(lambda a: _run_model_1(a[1], f'{tag}{a[0]}', timeout), list(enumerate(sh))):
+            res.update(r); rcs.append(rc)
+    return res, max(rcs)
+
+
+def run_impl(lines, tag='i', timeout=600, profile='debug'):
+    """runs the harness, sharded over several processes"""
+    from concurrent.futures import ThreadPoolExecutor
+    sh = _shards(lines)
+    if len(sh) == 1:
+        return _run_impl_1(lines, tag, timeout, profile)
+    res = {}
+    with ThreadPoolExecutor(len(sh)) as ex:
+        for r in ex.map(lambda a: _run_impl_1(a[1], f'{tag}{a[0]}', timeout, profile), list(enumerate(sh))):
+            res.update(r)
     return res
 
 
